@@ -173,11 +173,6 @@ func judgeDeath(d *chaos.Death, repo string) finding {
 	return finding{"fatal:" + normMsg(first) + ":" + fn, fmt.Sprintf("the process died (exit %s): %s", d.Exit, first)}
 }
 
-type chaosStats struct {
-	mu   sync.Mutex
-	keys map[string]int
-}
-
 var minimizeFlag = flag.Bool("minimize", false, "with --replay: shrink the chaos program while the violation key stays the same and print it")
 
 func main() {
@@ -516,13 +511,4 @@ func replay(run *vc.Run, h *chaos.Harness, g *chaos.Gen, repo, dir string) {
 		b, _ := json.Marshal(min)
 		fmt.Printf("MINIMAL-JSON %s\n", b)
 	}
-}
-
-func sortedKeys(m map[string]int) []string {
-	ks := make([]string, 0, len(m))
-	for k := range m {
-		ks = append(ks, k)
-	}
-	sort.Strings(ks)
-	return ks
 }
